@@ -673,6 +673,54 @@ Definition ref_write (st : fstyle) (a : adoc) : option bytes :=
     end
   end.
 
+
+(* ---------- known finding C02-raw-eol: the style spells some LF of a literal string as a raw CR or CR LF ---------- *)
+Fixpoint lit_raw_cr (s : bytes) (st : list lpos) : bool :=
+  match s, st with
+  | b :: s', p :: st' =>
+    (byte_eqb b x0a && match l_ch p with LRawCR | LRawCRLF => true | _ => false end) || lit_raw_cr s' st'
+  | _, _ => false
+  end.
+
+Fixpoint obj_raw_cr (o : obj) (y : ostyle) {struct o} : bool :=
+  match o with
+  | OStr s _ => match y with YStr (SLit l _) => lit_raw_cr s l | _ => false end
+  | OArr l =>
+    match y with
+    | YArr _ sts =>
+      (fix go (l : list obj) (sts : list (ostyle * filler)) : bool :=
+         match l, sts with
+         | x :: l', (sy, _) :: sts' => obj_raw_cr x sy || go l' sts'
+         | _, _ => false
+         end) l sts
+    | _ => false
+    end
+  | ODict d | OStream d _ =>
+    match y with
+    | YDict _ sts =>
+      (fix go (d : list (bytes * obj)) (sts : list (nstyle * filler * ostyle * filler)) : bool :=
+         match d, sts with
+         | (_, v) :: d', (_, _, vs, _) :: sts' => obj_raw_cr v vs || go d' sts'
+         | _, _ => false
+         end) d sts
+    | _ => false
+    end
+  | _ => false
+  end.
+
+Definition Known_raw_eol (st : fstyle) (a : adoc) : bool :=
+  existsb (fun io => obj_raw_cr (snd io) (i_obj (find_istyle (s_objs st) (fst (fst io))))) (a_objs a) ||
+  existsb (fun s => (fix go (ms : list N) (its : list (ostyle * list N * list N * list N)) : bool :=
+                       match ms, its with
+                       | m :: ms', (sy, _, _, _) :: its' =>
+                         match find_obj (a_objs a) m with Some (_, o) => obj_raw_cr o sy | None => false end || go ms' its'
+                       | _, _ => false
+                       end) (os_members s) (os_items s)) (s_ostms st) ||
+  match s_xref st with
+  | XTable t => obj_raw_cr (ODict (a_trailer a)) (t_trailer t)
+  | XStream _ => false      (* the generator never draws raw CR spellings inside a cross-reference stream dictionary *)
+  end.
+
 (* ---------- what the file defines ---------- *)
 (* A stream's Length entry is the number of bytes of its data, whether it was written directly or through
    an indirect object. *)
